@@ -181,7 +181,8 @@ def write_brackets_subtree(tree, stream, **params):
         for child in trees.children(tree):
             write_brackets_subtree(child, stream, **params)
     else:
-        tree = trees.replace_chars(tree, trees.BRACKETS)
+        # replace brackets in a copy of the terminal, not in the tree itself
+        tree = trees.replace_chars(trees.Tree(tree.data), trees.BRACKETS)
         stream.write(trees.get_label(tree, **params))
         stream.write(u" %s" % tree.data['word'])
     stream.write(u")")
